@@ -1,5 +1,6 @@
 """Contracts for acnportal/acnsim/network/charging_network.py  (C01 plug/unplug; C02/C04 update_pilots; C06/C12 later)."""
 import z3
+from pyvc.vtypes import FA
 from pyvc.contracts_api import REG, C, RaiseSpec, LoopSpec
 from pyvc.dsl import And, Or, Not, Implies, If, Eq, IsNone, AllIdx, AnyIdx
 from pyvc.vtypes import Real, Int, Bool, Id, Ref, Opt, Seq, Tup, Mat, IdSort, RefSort
@@ -20,7 +21,7 @@ def net_wf(s, net):
     k = z3.Const("nk!wf", IdSort)
     ev = lambda kk: s.field_of(z3.Select(m.arrs[0], kk), "BaseEVSE", "_station_id")
     return And(maplib.keys_wf(m),
-               z3.ForAll([k], z3.Implies(z3.Select(m.dom, k),
+               FA([k], z3.Implies(z3.Select(m.dom, k),
                                          z3.And(z3.Select(m.arrs[0], k) != 0, s.alloc_ref(z3.Select(m.arrs[0], k)), ev(k) == k)),
                          patterns=[z3.Select(m.arrs[0], k)]))
 
@@ -80,3 +81,19 @@ REG.contract(
     ensures=[C("C10.station_order_is_registration_order", lambda old, new, ret: [
         ret.len == old.self._EVSEs.keys.len,
         AllIdx(0, ret.len, lambda i: ret[i] == old.self._EVSEs.keys[i])])])
+
+
+# ---------------------------------------------------------------------------- feasibility (declared; bodies are numpy / complex arithmetic: C06 monitors them)
+NFEAS = z3.Function("NET_FEAS", z3.ArraySort(z3.IntSort(), z3.ArraySort(z3.IntSort(), z3.RealSort())), z3.IntSort(), z3.IntSort(), RefSort, z3.BoolSort())
+REG.contract(
+    N + "is_feasible", params=dict(self=Ref("ChargingNetwork", exact=True), schedule_matrix=Mat), ret=Bool, modifies=[],
+    assumed="numpy / complex-phasor body not verified: the result is the abstract network-side feasibility predicate of the matrix; only two "
+            "structural facts are used (no constraints => True, no columns => True); C06 monitors the predicate against the phasor definition",
+    ensures=[C("abstract", lambda old, new, ret: [
+        ret == NFEAS(old.schedule_matrix.arr, old.schedule_matrix.rows, old.schedule_matrix.cols, old.self.ref),
+        Implies(old.self.magnitudes.len == 0, ret), Implies(old.schedule_matrix.cols == 0, ret)])])
+REG.contract(
+    N + "constraint_current", params=dict(self=Ref("ChargingNetwork", exact=True), input_schedule=Mat), ret=Mat, modifies=[],
+    assumed="complex aggregate currents abstracted to a real matrix of the same shape (one row per constraint, one column per period): callers "
+            "under contract use only its shape (the warning branch of _update_schedules)",
+    ensures=[C("shape", lambda old, new, ret: [ret.rows == old.self.constraint_index.len, ret.cols == old.input_schedule.cols])])
